@@ -41,12 +41,18 @@ ASSUMPTIONS = [
     "even when it completes, and is only reachable through install_or_replace, which matches the same fullver",
     "the repository lock is the default fake lock; concurrent readers during the update are not modelled, only the "
     "state a fresh process sees after the death of the writer",
+    "second generation: every distinct acceptable post-fault state of a scenario (key: old/new/both + the entry and "
+    "temporary names present; first and last fault producing it) is a start state from which the merge is run again -- "
+    "replace(old, new) while the old entry is still listed, replace(new, new) when only the new one is, install(new) "
+    "when neither, uninstall(old) while listed -- under every fault plan again; a re-run that fails cleanly is fine, the "
+    "fresh view must stay old / new / both-complete; a re-run that reports success must show the new state",
     "old/new reference states are read once from the fault-free pre/post trees with the same view function and checked "
     "against the hand-written tags, so the view itself is validated",
 ]
 BOUNDS = {
     "quick": "14 scenarios; every mutating event of each (40-110 per vdb scenario, 2-9 per binpkg scenario) as a crash "
-    "point + a crash right after every rename/link/symlink + every open-for-write as a torn write",
+    "point + a crash right after every rename/link/symlink + every open-for-write as a torn write; second generation: "
+    "the same sweep again from every distinct acceptable post-fault state (about 5-12 start states per scenario)",
     "thorough": "same + one injected EIO at every event (process stays alive, the operation's own error path runs)",
 }
 
@@ -67,6 +73,7 @@ SCENARIOS = [
     ("bin", "uninstall-beside-sibling"),
 ]
 SHARDS = {"vdb": 8, "bin": 2}
+SHARDS2 = {"vdb": 6, "bin": 1}  # second generation: start states of a scenario are spread over this many tasks
 
 # replace scenarios: name -> (tag of the installed package, tag of the replacing package)
 REPLACE = {
@@ -84,6 +91,10 @@ def tasks(tier):
         n = SHARDS[kind]
         for i in range(n):
             out.append((tier, kind, name, i, n))
+    for kind, name in SCENARIOS:
+        n = SHARDS2[kind]
+        for i in range(n):
+            out.append((tier, kind, name, i, n, "gen2"))
     return out
 
 
@@ -331,15 +342,18 @@ class Fixture:
         shutil.copytree(self.tmpl, self.repo, symlinks=True)
 
     def operation(self):
-        """A callable performing the whole repository operation on a fresh repository object."""
+        """A callable performing the scenario's repository operation on a fresh repository object."""
+        return self._op_callable(self.op, self.target_old)
+
+    def _op_callable(self, op, oldcpv):
         from pkgcore.ebuild.atom import atom
 
-        kind, op = self.kind, self.op
+        kind = self.kind
         t = _tree(kind, self.repo)
-        oldp = t.match(atom("=" + self.target_old))[0] if op in ("replace", "uninstall") else None
+        oldp = t.match(atom("=" + oldcpv))[0] if op in ("replace", "uninstall") else None
         newp = self.pkgs[self.newtag] if self.newtag else None
         domain = self.domain
-        inj, same_second = self.inj, self.same_second
+        inj, same_second = self.inj, self.same_second and oldp is not None
         old_mtime = os.stat(t._get_path(oldp)).st_mtime_ns if same_second else None
 
         def run():
@@ -364,6 +378,88 @@ class Fixture:
             return o.finish()
 
         return run
+
+    # ---- second generation: re-running the interrupted operation -------------------------
+    def _names(self):
+        """Directory names of the repository two levels deep (which entries and which temporaries exist)."""
+        import re
+
+        out = []
+        for c in sorted(os.listdir(self.repo)):
+            cp = os.path.join(self.repo, c)
+            out.append(c)
+            if os.path.isdir(cp):
+                out += [c + "/" + re.sub(r"^\.tmp\.\d+\.", ".tmp.PID.", n) for n in sorted(os.listdir(cp))]
+        return tuple(out)
+
+    def start_states(self, tier):
+        """Distinct *acceptable* post-fault states of the scenario: key = (outcome, entry/temporary names present); for
+        each key the first and the last fault plan producing it (earliest and most advanced temporary contents)."""
+        first, last = {}, {}
+        for plan in _plans(self.events, tier):
+            _status, outcome, msg = self.execute(plan)
+            if msg is not None or outcome not in ("old", "new", "both"):
+                continue
+            key = (outcome, self._names())
+            first.setdefault(key, plan)
+            last[key] = plan
+        out = []
+        for key in first:
+            out.append((key, first[key]))
+            if last[key] != first[key]:
+                out.append((key, last[key]))
+        return out
+
+    def rerun_spec(self, state):
+        """What re-running the interrupted merge does, given what the repository lists now."""
+        listed = set(state)
+        if self.op == "uninstall":
+            return ("uninstall", self.target_old) if self.target_old in listed else None
+        if self.op == "replace" and self.target_old in listed:
+            return ("replace", self.target_old)
+        if self.target_new in listed:
+            return ("replace", self.target_new)
+        return ("install", None)
+
+    def prepare_start(self, plan1):
+        """Produce the start state of plan1, keep a copy, record the fault-free re-run from it."""
+        self.start_dir = os.path.join(self.scratch, "start")
+        shutil.rmtree(self.start_dir, ignore_errors=True)
+        self.execute(plan1)
+        shutil.copytree(self.repo, self.start_dir, symlinks=True)
+        self.rerun = self.rerun_spec(view(self.kind, self.start_dir))
+        if self.rerun is None:
+            self.events2 = []
+            return
+        self._reset2()
+        self.ff2_status, _val, self.events2 = self.inj.record(self._op_callable(*self.rerun))
+        del _val
+        gc.collect()
+
+    def _reset2(self):
+        shutil.rmtree(self.run_root, ignore_errors=True)
+        os.makedirs(self.run_root)
+        shutil.copytree(self.start_dir, self.repo, symlinks=True)
+
+    def execute2(self, plan2):
+        old = sys.unraisablehook
+        sys.unraisablehook = lambda u: None if isinstance(u.exc_value, OSError) else old(u)
+        try:
+            try:
+                self._reset2()
+                status, _val = self.inj.run(self._op_callable(*self.rerun), plan2)
+                del _val
+                gc.collect()
+                fired = self.inj.crashed_at is not None or self.inj.errored_at is not None
+                outcome, msg = self.judge(view(self.kind, self.repo))
+                if msg is None and not fired and plan2[0] != "torn" and status == "ok" and outcome != "new":
+                    # a re-run may fail cleanly (then any acceptable state is fine); one that reports success must be done
+                    msg, outcome = f"re-run reported success but the repository shows the {outcome} state", "complete-not-new"
+                return status, outcome, msg
+            finally:
+                gc.collect()
+        finally:
+            sys.unraisablehook = old
 
     def close(self):
         shutil.rmtree(self.scratch, ignore_errors=True)
@@ -472,6 +568,8 @@ def work(task):
     import logging
 
     logging.getLogger("pkgcore").setLevel(logging.CRITICAL)  # update_mtime logs every injected EIO
+    if len(task) == 6:
+        return work2(task)
     tier, kind, name, shard, nshards = task
     fx = Fixture(kind, name)
     evals = 0
@@ -526,6 +624,67 @@ def work(task):
     }
 
 
+def work2(task):
+    """Second generation: every distinct acceptable post-fault state is a start state from which the operation is run
+    again (what a user re-running the interrupted merge does), with every fault plan again."""
+    tier, kind, name, shard, nshards, _gen = task
+    fx = Fixture(kind, name)
+    evals = 0
+    classes = {}
+    viol = []
+    samples = []
+    nstart = 0
+    try:
+        starts = [] if fx.ff_problem else fx.start_states(tier)
+        for i, (key, plan1) in enumerate(starts):
+            if i % nshards != shard:
+                continue
+            fx.prepare_start(plan1)
+            if fx.rerun is None:
+                continue
+            nstart += 1
+            rop, rold = fx.rerun
+            same_fullver = rop == "replace" and rold == fx.target_new
+            for plan2 in _plans(fx.events2, tier):
+                evals += 1
+                status, outcome, msg = fx.execute2(plan2)
+                at = _at(fx.events2, plan2)
+                ckey = f"{kind}:{fx.op}:gen2:from-{key[0]}:re-{rop}:{outcome}"
+                classes[ckey] = classes.get(ckey, 0) + 1
+                if msg:
+                    viol.append(
+                        {
+                            "repo": kind,
+                            "scenario": name,
+                            "tier": tier,
+                            "gen": 2,
+                            "plan1": list(plan1),
+                            "n_events": len(fx.events),
+                            "start": [key[0], list(key[1])],
+                            "rerun": [rop, rold],
+                            "same_fullver": same_fullver,
+                            "plan": list(plan2),
+                            "n_events2": len(fx.events2),
+                            "at": at,
+                            "outcome": outcome,
+                            "msg": f"{kind} {name}: after {plan1[0]} at event {plan1[1]} ({key[0]} state, entries {list(key[1])}) "
+                            f"the operation is run again ({rop}): {plan2[0]} at event {plan2[1]}/{len(fx.events2)} ({at}): {msg}",
+                        }
+                    )
+            if len(samples) < 2:
+                samples.append({"scenario": f"{kind} {name}", "start": [key[0], list(key[1])], "from_plan": list(plan1), "rerun": [rop, rold], "events": len(fx.events2)})
+    finally:
+        fx.close()
+    return {
+        "evals": evals,
+        "classes": classes,
+        "viol": viol,
+        "samples": samples,
+        "counters": {"second_generation_start_states": nstart, "fault_plans": evals},
+        "keep_all_viol": True,
+    }
+
+
 def replay(case):
     import logging
 
@@ -538,6 +697,15 @@ def replay(case):
             return []
         if len(fx.events) != case["n_events"]:
             raise RuntimeError(f"fault-free run has {len(fx.events)} events, case recorded {case['n_events']}")
+        if case.get("gen") == 2:
+            fx.prepare_start(tuple(case["plan1"]))
+            if fx.rerun is None or list(fx.rerun) != case["rerun"] or len(fx.events2) != case["n_events2"]:
+                raise RuntimeError(f"re-run is {fx.rerun} with {len(fx.events2)} events, case recorded {case['rerun']} / {case['n_events2']}")
+            plan2 = tuple(case["plan"])
+            if _at(fx.events2, plan2) != case["at"]:
+                raise RuntimeError(f"event {plan2[1]} of the re-run is {_at(fx.events2, plan2)!r}, case recorded {case['at']!r}")
+            _status, _outcome, msg = fx.execute2(plan2)
+            return [msg] if msg else []
         plan = tuple(case["plan"])
         at = _at(fx.events, plan)
         if at != case["at"]:
@@ -565,13 +733,22 @@ def _vdb_partial_removal(case):
 
 def _vdb_replace_neither(case):
     """vdb replace of the *same fullver* swaps two directories with two renames (old -> .tmp.unmerge.*, .tmp.* -> final):
-    between them neither is listed.  (Before the fix this was: old entry wiped before the new one is renamed in.)"""
-    if not (case.get("repo") == "vdb" and case.get("scenario") == "replace-same-version" and case.get("outcome") == "neither"):
+    between them neither is listed.  Applies to the replace-same-version scenario and to second-generation re-runs
+    that are a same-fullver replace (the new entry was already listed when the merge was run again)."""
+    if not (case.get("repo") == "vdb" and case.get("outcome") == "neither"):
+        return False
+    if case.get("gen") == 2:
+        if not case.get("same_fullver"):
+            return False
+        pf = case["rerun"][1].split("/", 1)[1]
+    elif case.get("scenario") == "replace-same-version":
+        pf = "pkg-1"
+    else:
         return False
     at, kind = case.get("at", ""), case.get("plan", [""])[0]
     if kind == "crash_after":
-        return at.startswith("os.rename /repo/cat/pkg-1")
-    return kind in ("crash", "error") and at.startswith("os.rename /repo/cat/.tmp.pkg-1")
+        return at == f"os.rename /repo/cat/{pf}"
+    return kind in ("crash", "error") and at == f"os.rename /repo/cat/.tmp.{pf}"
 
 
 CLASSIFIERS = {
